@@ -65,6 +65,9 @@ type origCtx struct {
 	fn   *ssa.Function
 	memo map[ssa.Value]Origin
 	busy map[ssa.Value]bool
+	// self: captured cells whose own contents are being evaluated (a closure's `x = append(x, v)` on a
+	// variable of its creator): a load of such a cell contributes nothing new
+	self map[ssa.Value]bool
 }
 
 func newOrig(fn *ssa.Function) *origCtx {
@@ -131,6 +134,9 @@ func (oc *origCtx) compute(v ssa.Value) Origin {
 		return o
 	case *ssa.UnOp:
 		if x.Op == token.MUL {
+			if oc.self[x.X] {
+				return none() // the captured cell whose contents are being evaluated
+			}
 			// load from a local cell: join of everything stored into it
 			if al, ok := x.X.(*ssa.Alloc); ok {
 				o := none()
@@ -141,14 +147,37 @@ func (oc *origCtx) compute(v ssa.Value) Origin {
 						n++
 					}
 				}
-				if n > 0 {
-					// the cell may also be captured by a closure that stores into it
-					for _, r := range referrersOf(al) {
-						if _, ok := r.(*ssa.MakeClosure); ok {
-							// closures of this repository's analysed functions only read captured inputs;
-							// a closure that stores to the cell is found by the caller's scan of closure bodies
+				// the cell may also be captured by closures that store into it (a range-over-func body, a
+				// callback that collects): join what they store, evaluated in the closure with the cell's
+				// own contents neutral; a closure-side value that involves the closure's parameters is unknown
+				for _, r := range referrersOf(al) {
+					mc, ok := r.(*ssa.MakeClosure)
+					if !ok {
+						continue
+					}
+					cl := mc.Fn.(*ssa.Function)
+					for bi, bnd := range mc.Bindings {
+						if bnd != ssa.Value(al) || bi >= len(cl.FreeVars) {
+							continue
+						}
+						fv := cl.FreeVars[bi]
+						for _, r2 := range referrersOf(fv) {
+							st2, ok := r2.(*ssa.Store)
+							if !ok || st2.Addr != ssa.Value(fv) {
+								continue
+							}
+							sub := newOrig(cl)
+							sub.self = map[ssa.Value]bool{fv: true}
+							o2 := sub.of(st2.Val)
+							if len(o2.Params) > 0 {
+								o2 = Origin{Unknown: true, Why: "value stored by a closure from its own parameter", Params: map[int]bool{}}
+							}
+							o = joinO(o, o2)
+							n++
 						}
 					}
+				}
+				if n > 0 {
 					return o
 				}
 			}
